@@ -24,6 +24,7 @@ MANIFEST = dict(
 )
 
 KINDS = ["pmh2", "pmh3", "pmh3a", "pmh3asha"]
+KINDS_NO = ["pmh2_no", "pmh3_no", "pmh3a_no"]   # the crate's identity hasher, byte-structured and extreme identifiers
 
 
 def tags(hdr, bad):
@@ -53,6 +54,8 @@ def run(chk):
     chk.cov["schedules_2inst"] = n2
     joinfam.replay_join(chk, f2, ["pmh3+3a", "pmh2@scale", "pmh3@scale", "pmh3a@scale", "pmh3asha@scale"], "3-vs-3a-and-scaling",
                         stride=4 if quick else 1, ms=[2, 3, 4, 8], prop_tags=tags, seed=chk.seed + 1)
+    joinfam.random_join(chk, KINDS_NO, "identity-hasher", runs=20 if quick else 80, length=60, nitems=40, ms=[2, 3, 4, 6, 16],
+                        prop_tags=tags)
     joinfam.random_join(chk, KINDS, "random-streams", runs=16 if quick else 60, length=120, nitems=150, ms=[2, 3, 4, 6, 16],
                         reinit=True, prop_tags=tags)
     joinfam.random_join(chk, KINDS, "random-large-m", runs=2 if quick else 10, length=40, nitems=60, ms=[64, 256],
